@@ -24,7 +24,7 @@ claim('C08', 'dominance / must-pass-through on error edges + decision tables + l
       'Claimed: latch test dominates the cycle; every sub-step error edge passes record_fault; all fault entry points pass apply_fault; safe state iff decision flag and before the unconditional latch; decision tables; delivery loops have no early exit; only record/clear touch the latch and only restart/clear_fault clear it; resource loops mark Faulted only after the fault routine. Not decided: type-correctness of safe values.',
       _TB, 'DESIGN.md section 4 / C08')
 
-claim( 'system-call ordering by dominance on success edges + path-argument provenance + codec table agreement + local taint to allocation sinks + recursion-guard analysis',
+claim('C10', 'system-call ordering by dominance on success edges + path-argument provenance + codec table agreement + local taint to allocation sinks + recursion-guard analysis',
       'Claimed for protocol, tables and taint: the save routine follows create-temp -> write_all -> fsync -> rename(temp, final) on every path to Ok and never truncates the final path (crash points are covered because the ordering is a dominance fact over every path); encoder/decoder agree on tag and width sequence for all 31 value variants and on the string framing; file-derived counts never size an allocation; decoder recursion is depth-bounded; reader primitives bounds-check; save bookkeeping only after store() succeeded. Not decided: value equality of round trips beyond shape, directory fsync.',
       _TB, 'DESIGN.md section 4 / C10')
 
